@@ -70,7 +70,10 @@ func registerTime(e *Engine) {
 		return e.freshNow(st), true
 	}
 	I["(time.Time).UnixNano"] = func(e *Engine, st *State, th *Thread, args []Value, call *ssa.CallCommon) (Value, bool) {
-		return e.ndVar(st, "time.unixnano", 64, true), true
+		// defined only for instants between 1970 and 2262: non-negative
+		v := e.ndVar(st, "time.unixnano", 64, true)
+		e.addPC(st, e.C.Sge(v, e.i64(0)))
+		return v, true
 	}
 	dur := func(e *Engine, st *State) Value {
 		d := e.ndVar(st, "time.duration", 64, true)
